@@ -27,7 +27,7 @@ m = {
     "version": 1,
     "setup_cmd": "./check --setup",
     "hooks": {"guard": "RECIPE_GRID_VERIF", "enable": "no hooks in /repo are needed; checks import recipe_grid from /repo's working tree (PYTHONPATH=/repo)",
-              "baseline_off_cmd": "cd /repo && /venv/bin/python -m pytest -ra -q -p no:cacheprovider --timeout=900 --continue-on-collection-errors",
+              "baseline_off_cmd": "cd /repo && /venv/bin/python -m pytest -ra -q -p no:cacheprovider --timeout=900 --continue-on-collection-errors --junitxml=/tmp/recipe_grid_baseline.junit.xml",
               "source_commits": [], "add_only": True},
     "engines": [
         {"name": "coq-proof+correspondence", "path": "coq/ harness/rgv/", "serves_properties": [c["property_id"] for c in checks],
